@@ -1176,6 +1176,17 @@ fire('c18-revert-f18', 'C18',
      [(GEN, "    text = ('%(name)s: %(check_str)s\\n' %\n            {'name': _quote_check_str(default.name),", "    text = ('\"%(name)s\": %(check_str)s\\n' %\n            {'name': default.name,")], 'C18.QUOTED-HOLE')
 fire('c17-rule-line-check-as-name', 'C17',
      [(GEN, "            {'name': _quote_check_str(default.name),\n             'check_str': _quote_check_str(default.check_str)})\n\n    if include_help:", "            {'name': _quote_check_str(default.check_str),\n             'check_str': _quote_check_str(default.check_str)})\n\n    if include_help:")], 'C17.RULE-LINE')
+# the re-spelling helper is read character class by character class
+fire('c18-respell-keeps-del', 'C18',
+     [(GEN, "        c if ' ' <= c <= '~' else", "        c if c < '\\x80' else")], 'C18.SERIALIZED')
+fire('c18-respell-short-escape', 'C18',
+     [(GEN, "('\\\\u%04x' if ord(c) < 0x10000 else '\\\\U%08x') % ord(c)", "('\\\\u%04x' if ord(c) < 0x100000 else '\\\\U%08x') % ord(c)")], 'C18.SERIALIZED')
+fire('c17-respell-keeps-del', 'C17',
+     [(GEN, "        c if ' ' <= c <= '~' else", "        c if c < '\\x80' else")], 'C17.RULE-LINE')
+silent('c18-respell-same-class', 'C18',
+       [(GEN, "        c if ' ' <= c <= '~' else", "        c if '\\x1f' < c < '\\x7f' else")])
+silent('c18-respell-keeps-latin', 'C18',
+       [(GEN, "        c if ' ' <= c <= '~' else", "        c if ' ' <= c <= '~' or '\\xa1' <= c <= '\\xff' else")])
 # a re-spelling helper that drops what it does not like is not a re-spelling
 fire('c18-respell-drops', 'C18',
      [(GEN, "        ('\\\\u%04x' if ord(c) < 0x10000 else '\\\\U%08x') % ord(c)", "        ''")], 'C18.SERIALIZED')
